@@ -116,6 +116,11 @@ hs.append(H("h8_history", "h8_history.c",
                          "KSI_AsyncHandle_cleanup.function_pointer_call.1/KSI_Config_free,KSI_AggregationResp_free",
                          "KSI_AsyncHandle_cleanup.function_pointer_call.2/KSI_Config_free"]))
 
+hs.append(H("h9_resize", "h9_resize.c", ["asyncClient_setOption", "asyncClient_getOption"],
+            "one cache-size change on an arbitrary Inv-state; old and new size concrete per instance (1->1, 2->1 refused, 2->2, 2->4; thorough also 4->6); " + SHAPE,
+            [I("s2_to1", "CACHE_S=2", "NEW_N=1"), I("s3_to1", "CACHE_S=3", "NEW_N=1"), I("s3_to2", "CACHE_S=3", "NEW_N=2"), I("s3_to4", "CACHE_S=3", "NEW_N=4")],
+            [I("s2_to1", "CACHE_S=2", "NEW_N=1"), I("s3_to1", "CACHE_S=3", "NEW_N=1"), I("s3_to2", "CACHE_S=3", "NEW_N=2"), I("s3_to4", "CACHE_S=3", "NEW_N=4"), I("s5_to6", "CACHE_S=5", "NEW_N=6")]))
+
 plan = {
  "property": "C13",
  "outside": "cache sizes above 4 (step harnesses) / 2 (histories); histories longer than 4 operations; the transports themselves (net_tcp_async.c is C14's subject, net_http_curl_async.c needs libcurl); "
